@@ -88,17 +88,22 @@ def run_case(case, eng, res):
             log.append(d)
             b = SymBool(path.fresh_bool("cb_raises_%d" % k))
             raise_bits.append(b)
+            if k < case.get("raise_first", 0):
+                path.assume(bterm(b))  # a run of failing callbacks
             if bool(b):
                 raise RuntimeError("user callback failed")
 
         br = bridge_mod.SwitcherBridge(on_device, ports)
         aio.run(br.start())
         sent = []
-        for i, (cls, pi) in enumerate(seq):
+        for i, ent in enumerate(seq):
+            cls, pi = ent[0], ent[1]
             d, r = make_datagram(path, cls, "g%d_" % i)
-            n0 = len(log)
-            w.deliver(ports[pi], d)
-            sent.append(dict(cls=cls, port=pi, d=d, r=r, delivered=log[n0:]))
+            # [class, port, k]: the same datagram arrives k times in a row (a run of failures, a repeated broadcast)
+            for _rep in range(ent[2] if len(ent) > 2 else 1):
+                n0 = len(log)
+                w.deliver(ports[pi], d)
+                sent.append(dict(cls=cls, port=pi, d=d, r=r, delivered=log[n0:]))
         aio.run(br.stop())
         return sent, log, raise_bits, list(w.loop_errors)
 
@@ -166,13 +171,21 @@ def main(tier):
             for b in three:
                 for c in three:
                     cases.append({"ports": [20002, 10002, 20003, 10003], "seq": [[a, 0], [b, 3], [c, 0]]})
+    # runs: the same bad datagram k times in a row (or k valid ones whose callback raises), then a valid broadcast on that port
+    runs = (2, 3, 5, 8) if tier == "quick" else (2, 3, 4, 5, 8, 16, 33)
+    for k in runs:
+        for bad in (["undecodable"] if tier == "quick" else ["undecodable", "foreign", "short", "cut3", "unknown"]):
+            cases.append({"ports": [20002], "seq": [[bad, 0, k], ["valid1", 0]]})
+        if k <= 8:
+            cases.append({"ports": [20002], "seq": [["valid1", 0, k], ["validb", 0]], "raise_first": k})
+    cases.append({"ports": [20002, 20003], "seq": [["undecodable", 0, 3], ["valid1", 1], ["valid1", 0]]})
     results = H.run_cases("harness.C07", "run_case", cases, timeout_ms=120000 if tier == "quick" else 600000)
     nw = H.validate_call_witnesses(results, cmp=lambda exp, o: o.get("devices") == exp["devices"])
     H.finish(PID, tier, "model_checking", results, t0,
              rule="sequences of datagram classes {valid type-1 / Breeze / Runner, foreign magic, one byte short, three bytes short, one byte long, unknown model, "
                   "undecodable field}; every byte of every datagram symbolic under its class predicate; one symbolic bit per callback "
                   "invocation decides whether the user's callback raises",
-             bounds={"sequence length": 2 if tier == "quick" else 3, "ports": "1..2" if tier == "quick" else "1..4",
+             bounds={"sequence length": 2 if tier == "quick" else 3, "runs": "the same bad datagram (or failing callback) %s times in a row, then a valid broadcast" % (runs,), "ports": "1..2" if tier == "quick" else "1..4",
                      "valid datagrams": "all bytes symbolic except a concrete name; model, Breeze mode/fan and Runner direction pinned (C05 covers the full field domain)"},
              assumptions=["asyncio delivery contract (DESIGN 3.3): datagrams of a socket are handed to datagram_received in arrival order, "
                           "exceptions escaping it are logged by the loop and delivery continues",
